@@ -879,7 +879,7 @@ def run(ck):
     with ThreadPoolExecutor(6) as ex:
         f_mc = ex.submit(tlc.run, "BuildPhases_MC", cfg_text=mc_cfg(maxops, ids), workers=ck.pick(4, 12),
                          timeout=ck.pick(900, 3000))
-        f_guards = [ex.submit(tlc.run, "BuildPhases_MC", cfg_text=mc_cfg(4, [1], inv=[inv], prop=[], **consts), workers=1,
+        f_guards = [ex.submit(tlc.run, "BuildPhases_MC", cfg_text=mc_cfg(3, [1], inv=[inv], prop=[], **consts), workers=1,
                               timeout=900) for consts, inv in GUARDS]
         f_sim = ex.submit(tlc.run, "BuildPhases_Sim", cfg_text=sim_cfg(D), simulate=f"num={nsim}", depth=D + 3,
                           seed=seed() + 2, workers=1, timeout=900)
